@@ -124,7 +124,7 @@ def main():
                 "go test -vet=off -count=1 ./... with patch": "passes", "demo with patch": "fails",
                 "check %s %s with patch" % (prop, tier): "VIOLATION" if res["check_detected"] else "no violation (MISSED)",
             },
-            "detected_by_check": res["check_detected"],
+            "detected_by_check": res["check_detected"], "detected_" + tier: res["check_detected"],
             "check_output": res.get("check_output", []),
         }
         with open(os.path.join(d, "meta.json"), "w") as f:
@@ -151,7 +151,9 @@ def main():
                 r = sh([os.path.join(VERIF, "check"), meta["property"], tier], env=dict(ENV, VERIF_REPO=wt))
                 st = {0: "MISSED", 1: "DETECTED"}.get(r.returncode, "ERROR rc=%d" % r.returncode)
                 print("%-40s %s %s (%ds)" % (name, meta["property"], st, time.time() - t0), flush=True)
-                meta["detected_by_check"] = r.returncode == 1
+                meta["detected_" + tier] = r.returncode == 1
+                meta["detected_by_check"] = bool(meta.get("detected_quick", meta.get("detected_by_check") if tier != "quick" else False)
+                                                 or meta.get("detected_thorough") or r.returncode == 1)
                 meta["ran"]["check %s %s with patch" % (meta["property"], tier)] = "VIOLATION" if r.returncode == 1 else "no violation (MISSED)"
                 lines = [l for l in r.stdout.splitlines() if l.startswith("  ") and not l.startswith("  (also)")]
                 meta["check_output"] = [l[:400] for l in lines[:4]]
